@@ -1,11 +1,97 @@
 import ALV.Common.Json
 import ALV.Model.C11
 import ALV.Spec.C11
+import ALV.Model.C11Hist
 namespace ALV.Driver.C11
-open ALV ALV.J ALV.C11
+open ALV ALV.J ALV.C11 ALV.C11.Hist
 
 def ksJson (r : List Rat × Bool) : Json :=
   Json.mkObj [("ks", rats r.1), ("raised", Json.bool r.2)]
+
+
+/-! ### payloads shared by the single-call entries and by the steps of a history -/
+
+def parcorPayload (num den : List Rat) : Json :=
+  let model := match parcorCodedE den num with
+    | none => Json.mkObj [("err", Json.str "ValueError")]
+    | some r => ksJson r
+  let sp := parcorSpec num
+  Json.mkObj [
+    ("model", model), ("fixed", ksJson (parcorFixed num)), ("spec", ksJson sp),
+    ("rebuilt", rats (stepUp sp.1.reverse)), ("monic", rats (monic (stripZeros num)))]
+
+def stableDenPayload (den : List Rat) : Json :=
+  Json.mkObj [
+    ("model", Json.bool (parcorStableCoded den)), ("fixed", Json.bool (parcorStableFixed den)),
+    ("spec", Json.bool (parcorStableSpec den)),
+    ("ks", ksJson (parcorSpec den)), ("ks_model", ksJson (parcorCoded 1 den))]
+
+def levPayload (r : List Rat) (order : Nat) : Json :=
+  match levinson r order with
+  | none => Json.mkObj [("model", Json.mkObj [("err", Json.str "ParCorError")])]
+  | some (a, e, ks) =>
+    Json.mkObj [
+      ("model", Json.mkObj [("a", rats a), ("error", ratToJson e), ("ks", rats ks)]),
+      ("spec", Json.mkObj [("a", rats (stepUp ks)), ("error", ratToJson (errorSpec (r.headD 0) ks)),
+                           ("parcor", ksJson (parcorSpec a)), ("expected", rats ks.reverse)])]
+
+def getPart (j : Json) : Except String Part := do
+  match (← getStr j) with
+  | "num" => pure .num
+  | "den" => pure .den
+  | s => throw s!"C11: part {s}"
+
+def getOp (j : Json) : Except String (Op Rat) := do
+  match (← getStr (← field j "op")) with
+  | "mk" => pure (.mk (← getList getRat (← field j "num")) (← getList getRat (← field j "den")))
+  | "lev" => pure (.lev (← getList getRat (← field j "r")) (← getNat (← field j "order")))
+  | "setpoly" => pure (.setPoly (← getNat (← field j "t")) (← getPart (← field j "part"))
+                        (← getList getRat (← field j "cs")))
+  | "share" => pure (.share (← getNat (← field j "t")) (← getPart (← field j "part"))
+                      (← getNat (← field j "s")) (← getPart (← field j "spart")))
+  | "set" => pure (.set (← getNat (← field j "t")) (← getPart (← field j "part"))
+                    (← getNat (← field j "i")) (← getRat (← field j "v")))
+  | "parcor" => pure (.parcor (← getNat (← field j "t")))
+  | "stable" => pure (.stable (← getNat (← field j "t")))
+  | "stable_casc" => pure (.stableCasc (← getNat (← field j "t")) (← getNat (← field j "s")))
+  | s => throw s!"C11: unknown op {s}"
+
+def obsJson : Obs Rat → Json
+  | .made t => Json.mkObj [("made", natToJson t)]
+  | .parCorError => Json.mkObj [("err", Json.str "ParCorError")]
+  | .valueError => Json.mkObj [("err", Json.str "ValueError")]
+  | .dead => Json.str "dead"
+  | .done => Json.str "done"
+  | .ks l b => ksJson (l, b)
+  | .verdict b => Json.bool b
+
+def heapJson (h : Heap Rat) : Json :=
+  arr (fun (t : Nat) => match h.contents t with
+    | none => Json.null
+    | some (n, d) => Json.mkObj [("num", rats (stripZeros n)), ("den", rats (stripZeros d))])
+    (List.range h.filts.length)
+
+/-- the step of the heap model, plus (for the queries) the payload of the same call taken alone
+    on the current contents -/
+def stepJson (h : Heap Rat) (op : Op Rat) : Heap Rat × Json :=
+  let r := step h op
+  let alone : Json := match op with
+    | .parcor t => (match h.contents t with
+        | some (n, d) => parcorPayload n d
+        | none => Json.null)
+    | .stable t => (match h.contents t with
+        | some (_, d) => stableDenPayload d
+        | none => Json.null)
+    | .stableCasc t s => (match h.contents t, h.contents s with
+        | some (_, d), some (_, d') => stableDenPayload (pmul d d')
+        | _, _ => Json.null)
+    | .lev rr order => levPayload rr order
+    | _ => Json.null
+  (r.1, Json.mkObj [("obs", obsJson r.2), ("alone", alone), ("heap", heapJson r.1)])
+
+def runJson (h : Heap Rat) : List (Op Rat) → List Json
+  | [] => []
+  | op :: ops => let r := stepJson h op; r.2 :: runJson r.1 ops
 
 def handle (entry : String) (j : Json) : Except String Json := do
   match entry with
@@ -59,6 +145,10 @@ def handle (entry : String) (j : Json) : Except String Json := do
         ("model", Json.mkObj [("a", rats a), ("error", ratToJson e), ("ks", rats ks)]),
         ("spec", Json.mkObj [("a", rats (stepUp ks)), ("error", ratToJson (errorSpec (r.headD 0) ks)),
                              ("parcor", ksJson (parcorSpec a)), ("expected", rats ks.reverse)])]
+  | "hist" =>
+    -- a history of operations on mutable filter objects
+    let ops ← getList getOp (← field j "ops")
+    pure <| Json.mkObj [("steps", Json.arr (runJson Heap.empty ops))]
   | _ => throw s!"C11: unknown entry {entry}"
 
 end ALV.Driver.C11
